@@ -36,7 +36,10 @@ type servedObs struct {
 }
 
 func (rr *routingRun) serveProbe(p world.Probe, rawPath, rawQuery string) (world.ServeObs, servedObs) {
+	// (one request in five declares HTTP/1.0: the documented statuses do not depend on the announced protocol)
+	rr.w.HTTP10 = rr.src.Intn("http10", 5) == 4
 	obs := rr.w.Serve(p, rawPath, rawQuery, nil)
+	rr.w.HTTP10 = false
 	so := servedObs{kind: obs.Kind, tag: -1, status: obs.Status, loc: obs.Location}
 	if obs.Kind == model.KRoute {
 		so.tag = obs.Hit.Tag
